@@ -77,6 +77,8 @@ type Prog struct {
 	SSAProg *ssa.Program
 	ssaPkgs []*ssa.Package
 
+	lenUse token.Pos // position of the operation staticLen is asked for (definitions after it do not count)
+
 	cfgs map[*ast.FuncDecl]*cfg.CFG
 	mu   sync.Mutex
 }
